@@ -55,6 +55,7 @@ static int operand(pset *S,const char *t,const unsigned char *enumstr,int enumle
   if(k<0||k>=S->n)return -1;
   len=S->pk[k].len;
   if(*q=='p'){ int l=atoi(q+1); if(l<len)len=l; b=(unsigned char*)__real_malloc(len?len:1); memcpy(b,S->pk[k].p,len); }
+  else if(*q=='t'){ int l=0,v=0,z=0; sscanf(q+1,"%d:%d:%d",&l,&v,&z); if(l<len)len=l; if(z<0)z=0; b=(unsigned char*)__real_malloc(len+z+1); memcpy(b,S->pk[k].p,len); memset(b+len,v,z); len+=z; }
   else if(*q=='z'){ int z=atoi(q+1); b=(unsigned char*)__real_malloc(len+z+1); memcpy(b,S->pk[k].p,len); memset(b+len,0,z); len+=z; }
   else{
     b=(unsigned char*)__real_malloc(len?len:1); memcpy(b,S->pk[k].p,len);
